@@ -183,3 +183,69 @@ chk(Check('C20', 'fault_enumeration', ['retry_semaphore'],
           {'c20_callers_checked': {'quick': 8000, 'thorough': 150000}, 'c20_capacity_probes': {'quick': 2000, 'thorough': 30000}, 'c20_cancellations': {'quick': 400, 'thorough': 8000}, 'c20_multi_loop_cases': {'quick': 80, 'thorough': 1500}},
           'generated caller sets (limit 1-3; scopes global / class (two instances of one class, a second class) / self (two instances); 2-9 callers with distinct arrival and body times; raising bodies; lax and non-lax with acquisition timeouts 0.05-50 s); cancellation of one caller at enumerated instants (waiting and running); successive event loops in one process reusing the semaphore names; monitors: in-progress count per scope key at every body entry, entry instant vs FIFO counting-semaphore reference, fate vs reference, black-box capacity probe after quiescence (limit fresh callers enter at once, one more waits), registry semaphore value',
           'conservation monitor at the wrapped body + FIFO counting-semaphore reference model + capacity probe, with enumerated cancellation instants', [A_VT, 'arrival / duration / cancellation instants are pairwise distinct (no ties to arbitrate)', 'multiprocess scope is outside the property statement and not exercised']))
+
+fam(ScenarioFamily('expect_random', ('C18', 'C01'), gen.expect_random, 500, 10000))
+fam(EnumFamily('expect_cancel_enum', ('C18',), gen.expect_base, gen.expect_cancel_derive, 20, 300, 40, 120))
+chk(Check('C18', 'fault_enumeration', ['expect_random', 'expect_cancel_enum'],
+          {'c18_expects': {'quick': 1500, 'thorough': 30000}, 'c18_matches': {'quick': 300, 'thorough': 6000}, 'c18_timeouts': {'quick': 300, 'thorough': 6000}, 'c18_cancellations': {'quick': 100, 'thorough': 3000}, 'c18_registry_checks': {'quick': 1500, 'thorough': 30000}},
+          'event streams on 1-2 buses (serial and parallel) with 1-4 concurrent expect() calls with overlapping filters (class and name patterns, include / exclude / deprecated predicate, predicates that raise for some events, timeouts 0.05-3 s); reference: first event in processing order on that bus, begun after the call, of the requested type satisfying include and predicate and not exclude (an event whose processing interval straddles the deadline / cancellation instant may resolve either way); cancellation of the expecting task at every recorded instant -eps/+eps and midpoints; subscription registry compared with static handlers + still-pending expects at every return and at quiescence',
+          'reference-model differential (first match while pending) over recorded processing histories + registry postcondition at every expect() return, with enumerated cancellation instants', [A_VT, A_OBS, 'handlers in expect scenarios do not dispatch (processing intervals on a serial bus do not nest, so processing order is unambiguous)']))
+
+
+
+class WalFamily(ScenarioFamily):
+    """C17 plus a differential clause: the same program is run again with every WAL failure removed;
+    deliveries, results and completion must be identical ("a failing WAL write never affects event processing")."""
+
+    @staticmethod
+    def _summary(tr, final):
+        """Schedule-independent summary: events are named structurally (who created them, in which position),
+        not by creation order, because real-thread timing may reorder independent activity."""
+        import collections
+        inv = {r['seq']: r for r in tr if r['k'] == 'h_enter'}
+        label = {}
+        nth = collections.Counter()
+        for r in tr:
+            if r['k'] == 'disp_call' and r['ev'] not in label:
+                by = r['by']
+                if isinstance(by, int) and by in inv:
+                    i = inv[by]
+                    who = (label.get(i['ev'], ('?', i['ev'])), i['bus'], i['h'])
+                else:
+                    who = by
+                nth[who] += 1
+                label[r['ev']] = (who, nth[who])
+        lab = lambda ev: str(label.get(ev, ('?', ev)))  # noqa: E731
+        ent = collections.Counter((lab(r['ev']), r['bus'], r['h']) for r in tr if r['k'] == 'h_enter')
+        evs = {lab(ev): (f['sig'], f['status'], sorted((x['hid'], x['status'], x['err']) for x in f['results'])) for ev, f in final['events'].items()}
+        aw = sorted((r['by'], lab(r['ev']), r['exc']) for r in tr if r['k'] == 'aw_end' and isinstance(r['by'], str))
+        return ent, evs, aw
+
+    def execute(self, case, prop):
+        import copy
+        from . import engine
+        from .run import WORK
+        res = super().execute(case, prop)
+        sc = case['scenario']
+        failing = bool(sc.get('wal_fault')) or any(b.get('wal') in ('devfull', 'parentfile', 'isdir') for b in sc['buses'])
+        if failing:
+            tr1, fin1, meta1 = engine.run_scenario(sc, workdir=WORK)
+            clean = copy.deepcopy(sc)
+            clean.pop('wal_fault', None)
+            for b in clean['buses']:
+                if b.get('wal') in ('devfull', 'parentfile', 'isdir'):
+                    b['wal'] = True
+            tr2, fin2, meta2 = engine.run_scenario(clean, workdir=WORK)
+            res.counters['c17_differential_runs'] = 1
+            s1, s2 = self._summary(tr1, fin1), self._summary(tr2, fin2)
+            if s1 != s2 or meta1.get('hang') != meta2.get('hang'):
+                diff = {'deliveries': {str(k): v for k, v in ((s1[0] - s2[0]) + (s2[0] - s1[0])).items()}, 'events': [ev for ev in s1[1] if s1[1].get(ev) != s2[1].get(ev)][:5], 'awaits_equal': s1[2] == s2[2]}
+                res.violations.append({'prop': 'C17', 'clause': 'wal-failure-changed-event-processing', 'mech': None, 'w': diff})
+        return res
+
+
+fam(WalFamily('wal', ('C17',), gen.wal_scenario, 500, 6000, workdir=True))
+chk(Check('C17', 'fault_enumeration', ['wal'],
+          {'c17_lines': {'quick': 1200, 'thorough': 15000}, 'c17_payloads': {'quick': 600, 'thorough': 8000}, 'c17_failed_writes': {'quick': 600, 'thorough': 8000}, 'c17_processed': {'quick': 2500, 'thorough': 30000}, 'c17_differential_runs': {'quick': 150, 'thorough': 2000}},
+          'random bus programs (1-3 buses, nesting, forwarding, parallel handlers) with real WAL files under /verif/.work, generated payloads (nested containers, unicode incl. astral plane and control characters, aware/naive datetimes, big ints, extra fields); failing paths (/dev/full, parent is a regular file, path is a directory) and source-free failpoints that make the n-th anyio.open_file / the n-th write raise OSError (n sampled from 1..11); per bus: one WAL attempt per processed event, begun after all handlers of that (event,bus) exited, lines == successful attempts in order, every line validates back (id, type, parent, path at write time, payload value by value), failures logged at ERROR; differential clause: the same program re-run with every WAL failure removed shows identical deliveries, results, completion and await outcomes',
+          'offline checker of real file contents against processing records + I/O fault injection at hooked open/write (failpoints) on a thread-aware virtual-time loop', [A_VT, A_OBS, A_GEN, 'payloads exclude lone surrogates and NaN/inf (not JSON round-trippable)', 'I/O faults are sampled positions (n-th open / n-th write), not an exhaustive enumeration of every position in every program']))
